@@ -53,6 +53,12 @@ func ZZ_C13_createOrReuse() {
 		present = append(present, id)
 	}
 	ds.Status.ActiveReplicaSet = nondet.String("status.active", "", "foo-A", "foo-B", "foo-C", "foo-gone")
+	// everything of the ExtendedDaemonSet other than its pod template may have changed since the
+	// replica sets were created (they keep a snapshot of spec.selector): a template still has its
+	// replica set
+	if nondet.Bool("eds.selectorEditedSince") {
+		ds.Spec.Selector = &metav1.LabelSelector{MatchLabels: map[string]string{"pool": "edited"}}
+	}
 	c.EDS = append(c.EDS, ds)
 
 	before := map[string]*datadoghqv1alpha1.ExtendedDaemonSetReplicaSet{}
